@@ -1508,3 +1508,163 @@ theorem valueD_close {s : List Rat} (hs : Sorted s) (hne : s ≠ []) (hsz : Size
     _ = _ := by ring
 
 end Stats
+
+namespace Stats
+
+/-! ## part 5 — per-task lookup after the read-back -/
+
+theorem recKeyE_opToDict (m : OpMetrics) : recKeyE (opToDict m) = .ok (.str m.task) := by
+  unfold recKeyE opToDict dictGet
+  have h1 : (sTask == sOperation) = false := by decide
+  have h2 : (sOperation == sOperation) = true := by decide
+  have h3 : (sTask == sTask) = true := by decide
+  simp [h1]
+
+theorem jIsStr_str (a b : Str) : jIsStr (.str a) b = (a == b) := rfl
+
+theorem metricsE_cons_op (m : OpMetrics) (rs : List Dict) (x : Str) :
+    metricsE (opToDict m :: rs) x = if (m.task == x) = true then .ok (some (opToDict m)) else metricsE rs x := by
+  conv_lhs => unfold metricsE
+  rw [recKeyE_opToDict]
+  rfl
+
+/-- `metrics(task)` only ever returns a record whose task (or, lacking one, operation) *is* the requested name -/
+theorem metricsE_key {rs : List Dict} {t : Str} {r : Dict} (h : metricsE rs t = .ok (some r)) :
+    r ∈ rs ∧ ∃ k, recKeyE r = .ok k ∧ jIsStr k t = true := by
+  induction rs with
+  | nil => unfold metricsE at h; cases h
+  | cons a rs ih =>
+    unfold metricsE at h
+    split at h
+    · cases h
+    · next k hk =>
+      split at h
+      · next hm => cases h; exact ⟨List.mem_cons_self, k, hk, hm⟩
+      · obtain ⟨h1, h2⟩ := ih h; exact ⟨List.mem_cons_of_mem _ h1, h2⟩
+
+theorem metricsE_none_of_forall {ms : List OpMetrics} {x : Str} (h : ∀ m ∈ ms, m.task ≠ x) :
+    metricsE (ms.map opToDict) x = .ok none := by
+  induction ms with
+  | nil => rfl
+  | cons m ms ih =>
+    simp only [List.map_cons]
+    rw [metricsE_cons_op, if_neg (by simpa using h m List.mem_cons_self)]
+    exact ih (fun m' hm' => h m' (List.mem_cons_of_mem _ hm'))
+
+theorem taskE_task {tbl : PTable} {recs : List Rec} {t : Task} {m : OpMetrics} (h : taskE tbl recs t = .ok (some m)) :
+    m.task = t.name ∧ m.operation = t.opName := by
+  obtain ⟨er, du, _, _, hc⟩ := taskE_inv h
+  rcases hc with ⟨_, h0⟩ | ⟨_, th, la, se, pr, _, _, _, _, h1⟩
+  · cases h0
+  · cases h1; exact ⟨rfl, rfl⟩
+
+theorem calcE_tasks_subset {tbl : PTable} {recs : List Rec} {sched : List Task} {r : List OpMetrics}
+    (h : calcE tbl recs sched = .ok r) : ∀ m ∈ r, ∃ t ∈ sched, m.task = t.name := by
+  induction sched generalizing r with
+  | nil => unfold calcE at h; cases h; intro m hm; cases hm
+  | cons t ts ih =>
+    unfold calcE at h
+    split at h
+    · cases h
+    · next o ho =>
+      split at h
+      · cases h
+      · next r' hr' =>
+        cases h
+        intro m hm
+        cases o with
+        | none =>
+          obtain ⟨t', ht', e⟩ := ih hr' m hm
+          exact ⟨t', List.mem_cons_of_mem _ ht', e⟩
+        | some m0 =>
+          rcases List.mem_cons.mp hm with rfl | hm'
+          · exact ⟨t, List.mem_cons_self, (taskE_task ho).1⟩
+          · obtain ⟨t', ht', e⟩ := ih hr' m hm'
+            exact ⟨t', List.mem_cons_of_mem _ ht', e⟩
+
+/-- with unique task names, looking a scheduled task up by name in the calculated record list returns exactly the
+    record `taskE` computed for it (or nothing if the task is not reported) -/
+theorem metricsE_calc {tbl : PTable} {recs : List Rec} {sched : List Task} {r : List OpMetrics}
+    (hnd : (sched.map Task.name).Nodup) (h : calcE tbl recs sched = .ok r) {t : Task} (ht : t ∈ sched)
+    {o : Option OpMetrics} (hto : taskE tbl recs t = .ok o) :
+    metricsE (r.map opToDict) t.name = .ok (o.map opToDict) := by
+  induction sched generalizing r with
+  | nil => cases ht
+  | cons t0 ts ih =>
+    simp only [List.map_cons, List.nodup_cons] at hnd
+    unfold calcE at h
+    split at h
+    · cases h
+    · next o0 ho0 =>
+      split at h
+      · cases h
+      · next r' hr' =>
+        cases h
+        have hsub := calcE_tasks_subset hr'
+        rcases List.mem_cons.mp ht with rfl | hts
+        · -- the head task
+          have hoo : o = o0 := by rw [ho0] at hto; cases hto; rfl
+          subst hoo
+          cases o with
+          | none =>
+            simp only [Option.map_none]
+            apply metricsE_none_of_forall
+            intro m hm heq
+            obtain ⟨t', ht', e⟩ := hsub m hm
+            apply hnd.1
+            rw [← heq, e]
+            exact List.mem_map.mpr ⟨t', ht', rfl⟩
+          | some m0 =>
+            simp only [List.map_cons, Option.map_some]
+            rw [metricsE_cons_op, if_pos (by simp [(taskE_task ho0).1])]
+        · -- a later task: the head record (if any) has another name
+          have hne : t0.name ≠ t.name := by
+            intro heq
+            apply hnd.1
+            rw [heq]
+            exact List.mem_map.mpr ⟨t, hts, rfl⟩
+          cases o0 with
+          | none => exact ih hnd.2 hr' hts
+          | some m0 =>
+            simp only [List.map_cons]
+            rw [metricsE_cons_op, if_neg (by simp [(taskE_task ho0).1, hne])]
+            exact ih hnd.2 hr' hts
+
+theorem tasksE_calc (ms : List OpMetrics) : tasksE (ms.map opToDict) = .ok (ms.map (fun m => JVal.str m.task)) := by
+  induction ms with
+  | nil => rfl
+  | cons m ms ih =>
+    simp only [List.map_cons]
+    unfold tasksE
+    rw [recKeyE_opToDict, ih]
+
+theorem recsOfJ_map (ds : List Dict) : recsOfJ (ds.map JVal.obj) = some ds := by
+  induction ds with
+  | nil => rfl
+  | cons d ds ih => simp [recsOfJ, ih]
+
+theorem metricsE_cons_of_key {r : Dict} {k : Str} (h : recKeyE r = .ok (.str k)) (rs : List Dict) (x : Str) :
+    metricsE (r :: rs) x = if (k == x) = true then .ok (some r) else metricsE rs x := by
+  conv_lhs => unfold metricsE
+  rw [h]
+  rfl
+
+/-- general form: records whose keys (task, or operation for records without a task) are pairwise distinct are
+    each found under their own key -/
+theorem metricsE_unique {rs : List Dict} {ks : List Str}
+    (hk : List.Forall₂ (fun r k => recKeyE r = .ok (.str k)) rs ks) (hnd : ks.Nodup) {r : Dict} {k : Str}
+    (hmem : (r, k) ∈ rs.zip ks) : metricsE rs k = .ok (some r) := by
+  induction hk with
+  | nil => simp at hmem
+  | @cons r0 k0 rs ks hrk _ ih =>
+    simp only [List.nodup_cons] at hnd
+    rw [metricsE_cons_of_key hrk]
+    simp only [List.zip_cons_cons, List.mem_cons, Prod.mk.injEq] at hmem
+    rcases hmem with ⟨rfl, rfl⟩ | hm
+    · simp
+    · have hk' : k ∈ ks := (List.of_mem_zip hm).2
+      have hne : k0 ≠ k := fun h => hnd.1 (h ▸ hk')
+      rw [if_neg (by simpa using hne)]
+      exact ih hnd.2 hm
+
+end Stats
